@@ -1104,7 +1104,7 @@ func TestGen(t *testing.T) {
 		emit(w.C, w.Rules, w.Reqs, "witness:"+w.Name)
 	}
 
-	nVS := vlib.Scale(220, 6000)
+	nVS := vlib.Scale(180, 6000)
 	nReq := 8
 	for v := 0; v < nVS; v++ {
 		r := vlib.NewRand(seed*1000003 + uint64(v)*7919 + 11)
